@@ -61,7 +61,33 @@ pub(crate) struct File {
 struct FileInner {
     std_file: StdFile,
     size: AtomicU64,
-    synced_size: AtomicU64
+    synced_size: AtomicU64,
+    /// appends that have reserved their range (`size` already includes it) and have not finished writing it
+    appends_in_flight: AtomicU64,
+    /// every byte below this offset has been handed to the kernel: only those are covered by a sync that starts now
+    written_size: AtomicU64
+}
+
+/// Lives as long as an append is between reserving its range and having written it.
+struct AppendInFlight<'a>(&'a FileInner);
+
+impl<'a> AppendInFlight<'a> {
+    /// Reserves `len` bytes at the end of the file, returns the guard and the offset of the reserved range
+    fn reserve(file_inner: &'a FileInner, len: u64) -> (Self, u64) {
+        file_inner.appends_in_flight.fetch_add(1, Ordering::SeqCst);
+        let offset = file_inner.size.fetch_add(len, Ordering::SeqCst);
+        (Self(file_inner), offset)
+    }
+}
+
+impl<'a> Drop for AppendInFlight<'a> {
+    fn drop(&mut self) {
+        // `size` is read first: an append that reserved below this value and is still running keeps the counter above one
+        let size = self.0.size.load(Ordering::SeqCst);
+        if self.0.appends_in_flight.fetch_sub(1, Ordering::SeqCst) == 1 {
+            self.0.written_size.fetch_max(size, Ordering::SeqCst);
+        }
+    }
 }
 
 #[derive(PartialEq, Eq)]
@@ -90,7 +116,7 @@ impl File {
         let file_inner = self.inner.clone();
         if Self::can_run_inplace(len) {
             Self::inplace_sync_call(move || {
-                let offset = file_inner.size.fetch_add(len, Ordering::SeqCst);
+                let (_in_flight, offset) = AppendInFlight::reserve(&file_inner, len);
                 let (res, data) = c.create(offset);
                 if let Err(e) = Self::write_data(&file_inner.std_file, offset, res) {
                     Self::resync_size_after_failed_append(&file_inner);
@@ -100,7 +126,7 @@ impl File {
             })
         } else {
             Self::background_sync_call(move || {
-                let offset = file_inner.size.fetch_add(len, Ordering::SeqCst);
+                let (_in_flight, offset) = AppendInFlight::reserve(&file_inner, len);
                 let (res, data) = c.create(offset);
                 if let Err(e) = Self::write_data(&file_inner.std_file, offset, res) {
                     Self::resync_size_after_failed_append(&file_inner);
@@ -145,7 +171,7 @@ impl File {
         let file_inner = self.inner.clone();
         if Self::can_run_inplace(buf.len() as u64) {
             Self::inplace_sync_call(move || {
-                let offset = file_inner.size.fetch_add(buf.len() as u64, Ordering::SeqCst);
+                let (_in_flight, offset) = AppendInFlight::reserve(&file_inner, buf.len() as u64);
                 #[cfg(pearl_verif)]
                 if let Some(r) = super::verif_io::hook_bytes(&file_inner.std_file, super::verif_io::Kind::Append, offset, &[&buf[..]]) {
                     return r;
@@ -154,7 +180,7 @@ impl File {
             })
         } else {
             Self::background_sync_call(move || {
-                let offset = file_inner.size.fetch_add(buf.len() as u64, Ordering::SeqCst);
+                let (_in_flight, offset) = AppendInFlight::reserve(&file_inner, buf.len() as u64);
                 #[cfg(pearl_verif)]
                 if let Some(r) = super::verif_io::hook_bytes(&file_inner.std_file, super::verif_io::Kind::Append, offset, &[&buf[..]]) {
                     return r;
@@ -208,7 +234,8 @@ impl File {
 
     pub(crate) async fn fsyncdata(&self) -> IOResult<()> {
         let file_inner = self.inner.clone();
-        let size = self.size();
+        // bytes of an append that has reserved its range but not written it yet are not covered by this sync
+        let size = self.inner.written_size.load(Ordering::SeqCst);
         Self::background_sync_call(
             move || {
                #[cfg(pearl_verif)]
@@ -304,6 +331,7 @@ impl File {
     async fn from_tokio_file(file: TokioFile) -> IOResult<Self> {
         let size = file.metadata().await?.len();
         let synced_size = AtomicU64::new(size);
+        let written_size = AtomicU64::new(size);
         let size = AtomicU64::new(size);
         let std_file = file.try_into_std().expect("tokio file into std");
 
@@ -311,7 +339,9 @@ impl File {
             inner: Arc::new(FileInner { 
                 std_file, 
                 size,
-                synced_size
+                synced_size,
+                appends_in_flight: AtomicU64::new(0),
+                written_size
             })
         };
         Ok(file)
